@@ -76,6 +76,7 @@ class Opts:
         self.force_strat = False
         self.shared_names_bias = 0.0  # probability that a new flow re-uses the NAME of an earlier flow of any kind (names need not be unique)
         self.rebalance_repeat_bias = 0.0  # probability of the sequence A, B, A' of population-split adjustments (A' repeats A's stratification and filter with other proportions; B overlaps A)
+        self.zero_adjust_bias = 0.0   # probability that a Multiply adjustment is the literal 0 (a stratum that receives / passes nothing)
         self.inexact_split_bias = 0.0  # probability that a literal split sums to one only within the API's tolerance (0.01), or that a split of two independent parameters is used (not checked by the API)
         self.shuffle_split_bias = 0.0  # probability that the population split is declared in another order than the strata
         self.chain_adjust_bias = 0.0  # probability that a later stratification re-adjusts a flow an earlier stratification already adjusted (Multiply / Overwrite chains across stratifications)
@@ -477,7 +478,9 @@ class Gen:
                         adjs.append([s, None]); self.count("adj:none")
                     elif z < 0.7:
                         e = self.rate_expr(small=False)
-                        if o.chain_adjust_bias > 0 and o.allow_params and r.random() < 0.5:
+                        if o.zero_adjust_bias > 0 and r.random() < o.zero_adjust_bias:
+                            e = C(0); self.count("adj:zero")
+                        if o.chain_adjust_bias > 0 and o.allow_params and r.random() < 0.5 and e != C(0):
                             e = P(self.new_param())      # a named multiplier (its literal twin is folded differently by the code)
                         a = ["mul", e]
                         if "c" in e and r.random() < 0.4: a.append("bare")
